@@ -640,6 +640,15 @@ class Analysis:
                     facts.append((pe, "Ge", (tr2[0], tr2[0])))
                     facts.append((pe, "Le", (tr2[1], tr2[1])))
                 continue
+            if c and c["krate"] == "core" and c.get("name") == "and_then" and "option::Option" in str(c.get("def", "")) and len(t["a"]) == 2:
+                # `int::try_from(root).ok().and_then(|d| B.checked_pow(d))`: the chain is Some only if B^root fits
+                k = self._checked_pow_chain_bound(f, t, is_root)
+                if k is not None:
+                    pe = [e for ch in f.result_checks(bi) for e in ch["pass_edges"]]
+                    if pe:
+                        facts.append((pe, "Le", (k, k)))
+                        facts.append((pe, "Ge", (0, 0)))
+                continue
             if not c or c["krate"] in ("core", "alloc", "std"):
                 continue
             idxs = [i for i, a in enumerate(t["a"]) if is_root(a)]
@@ -660,6 +669,57 @@ class Analysis:
                     facts.append((pass_edges, "Le", (acc[1], acc[1])))
         cache[key] = facts
         return facts
+
+    def _checked_pow_chain_bound(self, f, t, is_root):
+        """for `recv.and_then(closure)` with recv = int::try_from(root).ok() (or an Option holding root's value) and a
+        closure that returns `B.checked_pow(its parameter)` for a constant B >= 2: the largest exponent that fits."""
+        # the closure
+        cl = op_local(t["a"][1])
+        cf = None
+        for x in (f.copy_chain(cl) | {cl}) if cl is not None else ():
+            for d in f.defs(x):
+                if d["kind"] == "assign" and d["rv"][0] == "agg" and d["rv"][1].get("k") == "closure":
+                    cf = self.p.funcs.get(d["rv"][1].get("def"))
+        if cf is None:
+            return None
+        cps = [(b, tt) for b, tt in cf.calls() if not cf.is_cleanup(b)]
+        if len(cps) != 1 or (callee_of(cps[0][1]) or {}).get("name") != "checked_pow" or cps[0][1].get("dest") != [0]:
+            return None
+        tt = cps[0][1]
+        base = op_const(tt["a"][0])
+        el = op_local(tt["a"][1])
+        if base is None or not str(base.get("v", "")).isdigit() or int(base["v"]) < 2 or el is None or 2 not in cf.copy_chain(el) | {el}:
+            return None
+        import re as _re
+        m = _re.search(r"Option<([iu](?:8|16|32|64|128|size))>", cf.raw.get("ret", "") or f.local_ty(t["dest"][0]))
+        tr = type_range(m.group(1)) if m else None
+        if tr is None:
+            return None
+        # the receiver carries root's value: ok(try_from(root)) / try_from(root).ok()
+        rl = op_local(t["a"][0])
+        for _ in range(4):
+            if rl is None:
+                return None
+            ds = [d for d in f.defs(rl) if d.get("p") and len(d["p"]) == 1]
+            if len(ds) != 1:
+                return None
+            d = ds[0]
+            if d["kind"] == "assign" and d["rv"][0] == "use" and op_local(d["rv"][1]) is not None:
+                rl = op_local(d["rv"][1])
+                continue
+            if d["kind"] != "call":
+                return None
+            nm = (callee_of(d["term"]) or {}).get("name")
+            if nm == "ok" and d["term"]["a"]:
+                rl = op_local(d["term"]["a"][0])
+                continue
+            if nm in ("try_from", "try_into") and d["term"]["a"] and is_root(d["term"]["a"][0]):
+                k, B = 0, int(base["v"])
+                while B ** (k + 1) <= tr[1]:
+                    k += 1
+                return k
+            return None
+        return None
 
     def accepted_param_range(self, g, param, depth=0):
         """interval of parameter `param` of g on g's Ok / normal exits (None = no information)."""
